@@ -1,7 +1,8 @@
 (* C04 - Concurrent vector: stable addresses, one element per index, built/destroyed once, cooling period.
    Only statements; proofs are `exact <lemma of CV/CVProofs.v>`.  `Reach b t0 progs s` = "s is reachable from the
    initial state (block size 2^b, clock t0 seconds) of client programs `progs` under SOME schedule": every theorem is
-   quantified over all schedules, all programs of ensure/reserve/[]/size/snapshot/snapshot[]/for_each/gc/time-passes,
+   quantified over all schedules, all programs of ensure/reserve/[]/size/snapshot/snapshot[]/for_each/gc/time-passes/
+   calendar-clock-steps,
    all thread counts, all block sizes and all (monotone) clock histories, 16-bit stamp wrap included.
 
    Everything in the property text is a theorem at full strength (no `_partial`, no `_refuted` left):
@@ -135,8 +136,17 @@ Theorem c04_move_and_swap_source_facts : (forall c, move_ctor_delegate_arg c = c
   (forall c, create_block_constructs c = negb (c =? 0)).
 Proof. exact (conj cvo_move_delegates_a_copy (conj cvo_swap_all_members cvo_create_block_test)). Qed.
 
-(* cooling period: a table is freed more than 64 s after the growth that superseded it, for every schedule and every
-   clock history, gc() calls included, 16-bit stamp wrap included *)
+(* which clock retire()/gc() stamp with: the regenerated clock id names a MONOTONIC clock, so the stamp source is elapsed
+   time whatever an adversary does to the calendar clock (client op OStep d: wall clock stepped by d seconds, forward or
+   backward - NTP step, date -s, VM resume).  With a calendar id (CLOCK_REALTIME*, CLOCK_TAI) this fails and every proof
+   below that goes through step_Step re-opens. *)
+Theorem c04_stamp_clock_is_monotonic : clock_is_monotonic clock_id = true /\ forall s, tsrc s = clock s.
+Proof. exact (conj cv_clock_is_monotonic tsrc_clock). Qed.
+Print Assumptions c04_stamp_clock_is_monotonic.
+
+(* cooling period: a table is freed more than 64 s of ELAPSED time after the growth that superseded it, for every
+   schedule and every clock history - elapsed time advancing arbitrarily (OAdv), the calendar clock stepped arbitrarily
+   in either direction (OStep) -, gc() calls included, 16-bit stamp wrap included *)
 Theorem c04_cooling : forall b t0 progs s, 0 <= t0 -> Reach b t0 progs s ->
   forall k ti r f, nth_error (tables s) k = Some ti -> tsup ti = Some r -> tfreed ti = Some f -> f - r > 64.
 Proof. exact cv_cooling. Qed.
